@@ -38,4 +38,16 @@ def GoErr.isNil (e : GoErr) : Bool := e == .nil
 @[simp] theorem GoErr.beq_nil_iff (e : GoErr) : (e == GoErr.nil) = true ↔ e = .nil := by
   simp
 
+@[simp] theorem GoErr.new_beq_nil (s : String) : (GoErr.new s == GoErr.nil) = false := by
+  rw [beq_eq_false_iff_ne]; intro h; cases h
+@[simp] theorem GoErr.wrap_beq_nil (s : String) (e : GoErr) : (GoErr.wrap s e == GoErr.nil) = false := by
+  rw [beq_eq_false_iff_ne]; intro h; cases h
+@[simp] theorem GoErr.ext_beq_nil (s : String) : (GoErr.ext s == GoErr.nil) = false := by
+  rw [beq_eq_false_iff_ne]; intro h; cases h
+@[simp] theorem GoErr.global_beq_nil (s : String) : (GoErr.global s == GoErr.nil) = false := by
+  rw [beq_eq_false_iff_ne]; intro h; cases h
+@[simp] theorem GoErr.status_beq_nil (c : Int) : (GoErr.status c == GoErr.nil) = false := by
+  rw [beq_eq_false_iff_ne]; intro h; cases h
+@[simp] theorem GoErr.nil_beq_nil : (GoErr.nil == GoErr.nil) = true := by simp
+
 end LLRP.GoSeq
